@@ -1,6 +1,7 @@
 import JunoModel.Common.Proto
 import JunoModel.C19.Model
 import JunoModel.C19.ModelUnits
+import JunoModel.C19.ModelProc
 /-!
 Line-protocol driver for the C19 model (`lake build c19drv`). Core Lean only.
 
@@ -33,6 +34,16 @@ Requests (answers):
   sshardfor <publisher>              -> ok <index> | err:<class>
   deliver <sigok 0|1> <committee> <publisher> <root> <proof> <sig> <index> <shards> <nonce> <sender>
         -> ok | err:<class>       (stateful: routes + validators kept between requests)
+  fromproto <guard 0|1> <shards> <index> <root> <siblings hex,…> <publisher> <sig> <committee> <nonce>
+        -> ok <committee> <publisher> <root> <siblings> <sig> <index> <shards> <nonce> | err:<class> | panic
+  toproto-roundtrip: not a request (UnitFromProto(ToProto(u)) is compared through fromproto)
+  preset <cfg> <pcfg> <local> <peers> -> ok | err:<class>      (new scheduler, empty processor)
+  pstep <sigok 0|1> <committee> <publisher> <root> <proof> <sig> <index> <shards> <nonce> <sender>
+        -> need-rs <shard|~,…>   the unit completes the build threshold: the harness answers with
+           `prs none` | `prs <hex,hex,…>` (the real RecoverData on these shards), and gets the outcome
+        -> handled <bcast> <built hex|none> <ended none|ok|err> | ignored | noroute | panic
+           <bcast> = `-` or `idx:shard:proof:root:sig:nonce:committee:publisher` joined by `+`
+<pcfg> is three characters 0/1: wireGuard noPoison localFromPresent.
 <cfg> is five characters 0/1: unpadGuard rootFromPresent shardingLeafProto validatorLeafProto nonceSet.
 -/
 open Juno.Proto Juno.C19
@@ -137,11 +148,21 @@ def outStr {α : Type} (show_ : α → String) : Out α → String
 
 def intStr (i : Int) : String := if i < 0 then "-" ++ toString i.natAbs else toString i.natAbs
 
-/-- Driver state: configuration, scheduler and routes of the validator session. -/
+def pcfg? (s : String) : Option PCfg :=
+  match s.toList with
+  | [a, b, c] =>
+    if [a, b, c].all (fun x => x == '0' || x == '1') then some ⟨a == '1', b == '1', c == '1'⟩ else none
+  | _ => none
+
+/-- Driver state: configuration, scheduler and routes of the validator session; processor of the
+processor session (with the step that waits for the codec's answer). -/
 structure St where
   cfg : Cfg := Cfg.pinned
+  pcfg : PCfg := PCfg.pinned
   sched : Option Sched := none
   routes : Routes HTerm := []
+  proc : Proc HTerm := Proc.empty
+  pending : Option (Bool × PUnit HTerm × Bytes) := none
 
 /-- RS parameter of one `create`/`construct` request: the answers of the real library are part of
 the request (the model does not compute GF(2^8) arithmetic). -/
@@ -161,6 +182,50 @@ def unit? (roots : List HTerm) (s : String) : Option (Option (PUnit HTerm)) :=
     let sh ← hexList? sh
     some (some ⟨[], [], r, [], [], 0, sh, 0⟩)
   | _ => none
+
+def optShards (l : List (Option Bytes)) : String :=
+  if l.isEmpty then "-" else ",".intercalate (l.map (fun o => match o with | none => "~" | some b => hexItem b))
+
+def unitStr (u : PUnit HTerm) : String :=
+  ":".intercalate [toString u.index, hexList u.shards, termList u.proof, termToString u.root,
+    bytesToHex u.sig, toString u.nonce, bytesToHex u.committee, bytesToHex u.publisher]
+
+def procOutStr : ProcOut HTerm → String
+  | .handled bc b e =>
+    "handled " ++ (if bc.isEmpty then "-" else "+".intercalate (bc.map unitStr)) ++ " " ++
+      (match b with | none => "none" | some m => bytesToHex m) ++ " " ++
+      (match e with | none => "none" | some false => "ok" | some true => "err")
+  | .ignored => "ignored"
+  | .noRoute => "noroute"
+  | .panic => "panic"
+
+/-- Does this unit complete the build threshold of its subprocessor? Then the shards the codec
+will be asked to recover. (Mirrors the first half of `subStep`; only used to fetch the codec's
+answer for exactly these shards from the real library.) -/
+def needsCodec (s : St) (sc : Sched) (sigok : Bool) (u : PUnit HTerm) (sender : Bytes) :
+    Option (List (Option Bytes)) :=
+  let key := keyOf u
+  if s.proc.finalized.contains key then none else
+  match sc.shardIndexFor key.publisher with
+  | .error _ => none
+  | .ok _ =>
+    let st := (s.proc.findSub key).getD (SubState.fresh sc.total)
+    match st.built with
+    | some _ => none
+    | none =>
+      match validate s.cfg termFns (sigOracle sigok) sc key.publisher st.v u sender with
+      | .error _ => none
+      | .ok _ =>
+        if st.count + 1 ≠ sc.k then none
+        else unitShards (st.units.set u.index (some u))
+
+def runPStep (s : St) (sc : Sched) (sigok : Bool) (u : PUnit HTerm) (sender : Bytes)
+    (rec : Option (List Bytes)) : St × String :=
+  let (p', out) := procStep s.cfg s.pcfg termFns (rsOracle [] rec) (sigOracle sigok) sc s.proc u sender
+  ({ s with proc := p', pending := none }, procOutStr out)
+
+def wireErr : WireErr → String
+  | .noShards => "no-shards" | .shardLen => "shard-len" | .rootLen => "root-len"
 
 def schedErr : SchedErr → String
   | .tooFew => "too-few" | .localMissing => "local-missing" | .duplicate => "duplicate"
@@ -270,6 +335,39 @@ def step (s : St) (line : String) : St × String :=
       | .ok i => (s, s!"ok {i}")
       | .error e => (s, "err:" ++ e.name)
     | _, _ => (s, "bad-op")
+  | ["fromproto", g, shards, idx, root, sibs, publisher, sig, committee, nonce] =>
+    match hexList? shards, idx.toNat?, hexToBytes? root, hexList? sibs, hexToBytes? publisher,
+          hexToBytes? sig, hexToBytes? committee, nonce.toNat? with
+    | some shards, some idx, some root, some sibs, some publisher, some sig, some committee, some nonce =>
+      if g != "0" && g != "1" then (s, "bad-op") else
+      match unitFromProto (g == "1") ⟨shards, idx, root, sibs, publisher, sig, committee, nonce⟩ with
+      | .ok u => (s, " ".intercalate ["ok", bytesToHex u.committee, bytesToHex u.publisher, bytesToHex u.root,
+          hexList u.proof, bytesToHex u.sig, toString u.index, hexList u.shards, toString u.nonce])
+      | .err e => (s, "err:" ++ wireErr e)
+      | .panic => (s, "panic")
+    | _, _, _, _, _, _, _, _ => (s, "bad-op")
+  | ["preset", c, pc, loc, peers] =>
+    match cfg? c, pcfg? pc, hexToBytes? loc, hexList? peers with
+    | some c, some pc, some loc, some peers =>
+      match newScheduler loc peers with
+      | .ok sc => ({ s with cfg := c, pcfg := pc, sched := some sc, proc := Proc.empty, pending := none }, "ok")
+      | .error e => ({ s with sched := none, proc := Proc.empty, pending := none }, "err:" ++ schedErr e)
+    | _, _, _, _ => (s, "bad-op")
+  | ["pstep", sigok, committee, publisher, root, proof, sig, idx, shards, nonce, sender] =>
+    match s.sched, hexToBytes? committee, hexToBytes? publisher, term? root, terms? proof,
+          hexToBytes? sig, idx.toNat?, hexList? shards, nonce.toNat?, hexToBytes? sender with
+    | some sc, some committee, some publisher, some root, some proof, some sig, some idx,
+      some shards, some nonce, some sender =>
+      if sigok != "0" && sigok != "1" then (s, "bad-op") else
+      let u : PUnit HTerm := ⟨committee, publisher, root, proof, sig, idx, shards, nonce⟩
+      match needsCodec s sc (sigok == "1") u sender with
+      | some sh => ({ s with pending := some (sigok == "1", u, sender) }, "need-rs " ++ optShards sh)
+      | none => runPStep s sc (sigok == "1") u sender none
+    | _, _, _, _, _, _, _, _, _, _ => (s, "bad-op")
+  | ["prs", r] =>
+    match s.sched, s.pending, (if r == "none" then some none else (hexList? r).map some) with
+    | some sc, some (sigok, u, sender), some rec => runPStep s sc sigok u sender rec
+    | _, _, _ => (s, "bad-op")
   | ["vreset", c, loc, peers] =>
     match cfg? c, hexToBytes? loc, hexList? peers with
     | some c, some loc, some peers =>
